@@ -349,6 +349,31 @@ enum Edit {
     Unsolicited,
 }
 
+/// C12: the remembered last-N headers are the ancestors of the stored tip (consecutive numbers
+/// ending at the tip's parent, each the header of the tip's own chain at its number); judged when
+/// the stored tip is a block of one of the world's chains
+fn remembered_not_ancestors(storage: &crate::storage::Storage, world: &World) -> Option<String> {
+    let (_, tip) = storage.get_last_state();
+    let tip_hash = tip.calc_header_hash();
+    let tip_number: u64 = tip.raw().number().unpack();
+    let chain = world.chains.iter().find(|c| c.number_of_hash(&tip_hash) == Some(tip_number))?;
+    let remembered = storage.get_last_n_headers();
+    for (i, (n, h)) in remembered.iter().enumerate() {
+        if *n > chain.tip_number() || &chain.header(*n).hash() != h {
+            return Some(format!("remembered block {} is not an ancestor of the stored tip {}", n, tip_number));
+        }
+        if i + 1 < remembered.len() && remembered[i + 1].0 != n + 1 {
+            return Some(format!("remembered blocks {} and {} are not consecutive", n, remembered[i + 1].0));
+        }
+    }
+    if let Some((n, _)) = remembered.last() {
+        if n + 1 != tip_number {
+            return Some(format!("the remembered headers end at {} but the stored tip is {}", n, tip_number));
+        }
+    }
+    None
+}
+
 struct World {
     chains: Vec<SimChain>, // chain 0 = main, others forks
     peer_chain: BTreeMap<u64, usize>,
@@ -839,7 +864,7 @@ fn run_history(rep: &mut Report, prop: &str, seed: u64, len: usize) -> HistoryOu
                     .get_state(&PeerIndex::new(p as usize))
                     .and_then(|st| st.get_prove_state().map(|ps| ps.get_last_header().header().hash() == chain.tip().hash()))
                     .unwrap_or(false);
-                if variant == 2 && prop != "C01" && proved_tip && chain.tip_number() >= 3 && !forged_now && rng.chance(1, 2) {
+                if variant == 2 && proved_tip && chain.tip_number() >= 3 && !forged_now && rng.chance(1, 2) {
                     // two steps.  First a sibling Q of the peer's proved tip P (same height, own
                     // block) that commits to a parent chain root with an inflated total difficulty:
                     // nothing but an unproven announcement.  Then a child C of P whose parent
@@ -988,6 +1013,28 @@ fn run_history(rep: &mut Report, prop: &str, seed: u64, len: usize) -> HistoryOu
                 }
                 if prop == "C12" && label == "forged-child" {
                     rep.count_class("c12:forged-child-delivered");
+                }
+                if prop == "C12" && after_tip.1.as_slice() != before_tip.1.as_slice() {
+                    if let Some(what) = remembered_not_ancestors(&node.env.storage, &world) {
+                        let mut r = replay.clone();
+                        r.push(format!("# after an announcement ({}): {}", label, what));
+                        rep.violate("C12|remembered-headers-not-ancestors|child-path", "the remembered last-N headers are not the ancestors of the stored tip", r);
+                    }
+                }
+                if prop == "C01" && label.starts_with("forged") {
+                    // an announcement is no proof: a made-up header (with an inflated parent chain
+                    // root) must become neither the peer's proved header nor the stored tip
+                    rep.count_class(&format!("c01:{}-delivered", label));
+                    let forged_hash = vh.header().hash();
+                    let proved_forged = after_ps.as_ref().map(|ps| ps.get_last_header().header().hash() == forged_hash).unwrap_or(false);
+                    let tip_forged = after_tip.1.calc_header_hash() == forged_hash;
+                    if proved_forged || tip_forged {
+                        rep.violate(
+                            &format!("C01|accepted|{}", label),
+                            "a made-up header announced by a peer became trusted (the peer's proved header / the stored tip) without any proof",
+                            replay.clone(),
+                        );
+                    }
                 }
             }
             // ------------------------------------------------------------ SendLastStateProof
@@ -1442,6 +1489,11 @@ fn run_history(rep: &mut Report, prop: &str, seed: u64, len: usize) -> HistoryOu
                 if prop == "C12" && after_tip.1.as_slice() != before_tip.1.as_slice() {
                     if after_tip.0 <= before_tip.0 {
                         rep.violate("C12|tip-moved-without-more-difficulty", "the stored tip changed without a strictly greater total difficulty", replay.clone());
+                    }
+                    if let Some(what) = remembered_not_ancestors(&node.env.storage, &world) {
+                        let mut r = replay.clone();
+                        r.push(format!("# after a proof: {}", what));
+                        rep.violate("C12|remembered-headers-not-ancestors|proof-path", "the remembered last-N headers are not the ancestors of the stored tip", r);
                     }
                     let tip_hash = after_tip.1.calc_header_hash();
                     // a proof proves the last header it carries (the one it was requested for)
